@@ -128,6 +128,6 @@ func (g *pgen) pipe(depth int) (string, bool) {
 			p = "map sum " + p
 		}
 		fac := g.fac()
-		return fmt.Sprintf("cluster %d %s %s", g.rng.Range(1, 4), fac, p), fac == "firstprev"
+		return fmt.Sprintf("cluster %d %s %s", g.rng.Range(1, 4), fac, p), fac != "first" && fac != "none"
 	}
 }
